@@ -303,6 +303,13 @@ def lkey(locs):
     return tuple(sorted(locs.items(), key=lambda kv: kv[0]))
 
 
+class EventBudgetExceeded(Exception):
+    """the interpretation of ONE environment event forked beyond its step budget (path explosion inside a loop over a tracked list)"""
+
+
+EVENT_STEP_BUDGET = 400000
+
+
 class Viol:
     def __init__(self, kind, detail, stack, site=None):
         self.kind, self.detail, self.stack, self.site = kind, detail, stack, site
@@ -1080,6 +1087,9 @@ class Interp:
 
     def run_stmt(self, stmt, st, ctx):
         locs = ctx.locs
+        self.steps = getattr(self, "steps", 0) + 1
+        if self.steps > EVENT_STEP_BUDGET:
+            raise EventBudgetExceeded()
         if isinstance(stmt, (ast.Pass, ast.Import, ast.ImportFrom, ast.Global, ast.Nonlocal,
                              ast.FunctionDef, ast.ClassDef)):
             return [(st, locs, None)]
@@ -1712,6 +1722,7 @@ class Explorer:
         ntrans = 0
         exhausted = True
         events_used = collections.Counter()
+        budget_events = collections.Counter()
         while q:
             # budgets: a state budget per environment, a wall-clock budget, and - once something was found - a much
             # smaller one (a broken tree can blow the state space up; the violations nearest to the initial state
@@ -1727,7 +1738,14 @@ class Explorer:
             for name, f in evs:
                 I.stack[:] = [name]
                 before = len(I.viol)
-                succ = f(s)
+                I.steps = 0
+                try:
+                    succ = f(s)
+                except EventBudgetExceeded:
+                    # one event forked beyond its budget: its successors are not explored (the verdict covers what was explored)
+                    exhausted = False
+                    budget_events[name.split("(")[0]] += 1
+                    succ = []
                 if len(I.viol) > before:
                     for k in list(I.viol)[before:]:
                         I.viol[k].state_key = s.key()
@@ -1769,6 +1787,7 @@ class Explorer:
         r.wall = time.time() - t0
         r.viol = I.viol
         r.events_used = events_used
+        r.budget_events = dict(budget_events)
         r.fired_rows = set(I.fired_rows)
         r.app_events = set(I.app_events_seen)
         r.env = self.env
